@@ -203,6 +203,9 @@ class QueryPlanner:
     def resolve_database_table(self, node: Identifier):
         # resolves integration name and table name
 
+        if not isinstance(node, Identifier):
+            raise PlanningException(f'A table name is expected here, got: {node}')
+
         parts = node.parts.copy()
         alias = None
         if node.alias is not None:
@@ -465,6 +468,8 @@ class QueryPlanner:
         new_identifier = copy.deepcopy(identifier)
 
         info = self.get_predictor(identifier)
+        if info is None:
+            raise PlanningException(f'Model is not found: {identifier}')
         namespace = info['integration_name']
 
         parts = [namespace, info['name']]
